@@ -421,6 +421,15 @@ def c20_isolation(r, seed, tier, model_ok):
                        (f"{Z0} ㄴ ㄴㅁㅎㄷ", f"({Z0} ㄴㄱ ㄱㅎㄷ) ㄴ ㄴㅁㅎㄷ"), (f"{Z0} ㄴ ㅅㅎㄷ", f"({Z0} ㄴㄱ ㄱㅎㄷ) ㄴ ㅅㅎㄷ"), (f"{Z0} {Z0} ㅂㅅㅎㄷ ㄴ ㄱㅎㄷ", f"{Z0} {Z0} ㅂㅅㅎㄷ ㄴㄱ ㄱㅎㄷ"),
                        (f"{Z0} ㅁㄹㅎㄴ", f"({Z0} ㄴㄱ ㄱㅎㄷ) ㅁㄹㅎㄴ"), (f"{Z0} (ㅂ ㅅ ㅂㄹ ㄱ ㅂㅎㅁ) ㅎㄴ", f"({Z0} ㄴㄱ ㄱㅎㄷ) (ㅂ ㅅ ㅂㄹ ㄱ ㅂㅎㅁ) ㅎㄴ")):
         progs += [dict(text=pos_), dict(text=neg_)] * 2
+    # the VALUE of a caught exception of every failure class - printed whole and measured - evaluated several times in one process: an exception
+    # value is built from what failed NOW, not from what failed earlier (class-level code lists, message caches)
+    FAILS_ = ["(ㄴ ㄱ ㄴㄴㅎㄷ)", "(ㄴ (ㄱ ㅁㅈㅎㄴ) ㄷㅎㄷ)", "(ㅂ (ㄴ ㄷ ㅁㄹㅎㄷ) ㅎㄴ)", "(ㄴ ㄷ ㄹ ㅁㅈㅎㄹ)", "(ㄹ (ㄴ ㄷ ㅅㅈㅎㄷ) ㅎㄴ)", "(ㄱ ㄴㄱ ㅅㅎㄷ)", "(ㅁㅈㅎㄱ ㅂㅎㄴ)", f"({st('nope/none')} ㅂㅎㄴ)",
+              "(ㅈ ㅁ ㅂㅎㄷ)", "(ㅂ ㅈㅈㅈ ㅂㅎㄷ)", f"({E(10**400)} ㅅㅅㅎㄴ)", "(ㄹ ㅁ ㄷㅂㅎㄷ ㄷㅈㅎㄴ)"]
+    for f_ in FAILS_:
+        for h_ in ("(ㄱㅇㄱ ㅎ)", "(ㄱㅇㄱ ㅈㄷㅎㄴ ㅎ)"): progs += [dict(text=f"{f_} {h_} ㅅㄷㅎㄷ")] * 2
+    for tgt_ in (st("nope/none"), E(-1), st("")):          # file open failures through the reject handler of a bind: the OS error value, whole and measured
+        for mw_ in ("ㄹ", "ㄹㅈㄹ"):
+            progs += [dict(text=f"({tgt_} {mw_} ㄱㄴㅎㄷ) ㄱㅅ (ㄱㅇㄱ ㄱㅅㅎㄴ ㅎ) ㄱㄹㅎㄹ"), dict(text=f"({tgt_} {mw_} ㄱㄴㅎㄷ) ㄱㅅ ((ㄱㅇㄱ ㅈㄷㅎㄴ) ㄱㅅㅎㄴ ㅎ) ㄱㄹㅎㄹ")] * 2
     progs += [dict(text="ㄴ ㄷ ㄷ\nㅎㄷ"), dict(text="ㄴ ㄷ ㄱ\nㅎㄷ"), dict(text="ㄴ ㄷ ㄴ\nㅎㄷ"), dict(text="ㄴ ㄷ (ㄱㅇㄱ ㅎ)\nㅎㄷ")]
     uniq = list({(p["text"], p.get("stdin", "")): p for p in progs}.values())
     try:
